@@ -1112,3 +1112,7 @@ M('C17', 'hidden-effect-in-manual-partialeq', OPS, "        let res: Val = env.i
 M('C02', 'ft-validate_with_payload-no-auth', GW, "        payload: Bytes,\n    ) -> bool {\n        caller.require_auth();\n\n        let payload_hash = env.crypto().keccak256(&payload).into();", "        payload: Bytes,\n    ) -> bool {\n        let payload_hash = env.crypto().keccak256(&payload).into();", 'C02.R1', base='features/gwmsg-f5')
 M('C07', 'ft-validate_with_payload-no-auth-c07', GW, "        payload: Bytes,\n    ) -> bool {\n        caller.require_auth();\n\n        let payload_hash = env.crypto().keccak256(&payload).into();", "        payload: Bytes,\n    ) -> bool {\n        let payload_hash = env.crypto().keccak256(&payload).into();", 'C07', base='features/gwmsg-f5')
 M('C17', 'ft-add_operators-no-owner', OPS, "    pub fn add_operators(env: Env, accounts: Vec<Address>) -> Result<(), ContractError> {\n        Self::owner(&env).require_auth();\n", "    pub fn add_operators(env: Env, accounts: Vec<Address>) -> Result<(), ContractError> {\n", 'C17.R3', base='features/gasops-f5')
+M('C10', 'rf-abi17-high-half-partially-checked', ABI, "    if high_half.iter().any(|&byte| byte != 0) {", "    if high_half.iter().take(8).any(|&byte| byte != 0) {", 'C10', base='abi-17')
+M('C10', 'rf-abi17-negative-guard-dropped', ABI, "        amount if amount < 0 => Err(ContractError::InvalidAmount),\n", "", 'C10', base='abi-17')
+M('C10', 'rf-abi17-low-half-is-high-half', ABI, "    low_bytes.copy_from_slice(low_half);", "    low_bytes.copy_from_slice(high_half);", 'C10', base='abi-17')
+M('C03', 'ft-rotate_at_epoch-bypasses-entry', GW, "        Self::rotate_signers(env.clone(), signers, proof, bypass_rotation_delay)?;\n\n        Ok(auth::epoch(&env))", "        let _ = (&proof, bypass_rotation_delay);\n        auth::rotate_signers(&env, &signers, false)?;\n\n        Ok(auth::epoch(&env))", 'C03', base='features/gwrotate-f5')
